@@ -98,15 +98,14 @@ func c17TreeFragAlone(sc c17Scenario) c17Prog {
 	return c17Number(p)
 }
 
-// does the pinned code analyse the fragment on its own while checking package pk?
-// It does for a fragment in pk's directory that pk does not include -- and
-// (known finding) for one that pk includes as ${.CURDIR}/inc.mk.
+// does the code analyse the fragment on its own while checking package pk?
+// It does for a fragment in pk's directory that pk does not include.
 func c17TreeAlone(sc c17Scenario, pk c17TreePkg) bool {
 	inDir := (sc.FragLoc == "own" && pk.Dir == "pa") || (sc.FragLoc == "other" && pk.Dir == "pb")
 	if !inDir {
 		return false
 	}
-	return pk.Spelling == "" || strings.HasPrefix(pk.Spelling, "${.CURDIR}")
+	return pk.Spelling == ""
 }
 
 type c17PathVerdict struct {
@@ -567,6 +566,15 @@ func c17FixedScenarios() []c17Scenario {
 		Pkgs: []c17TreePkg{{"pa", c17Prog{a("VA", "=", "2")}, nil, "../../CAT/pb/inc.mk"},
 			{"pb", c17Prog{a("VB", "=", "3")}, nil, ""}},
 		FragLoc: "other", FragKind: "canonical", Frag: frag, Args: []string{"-r", "CAT"}, Name: "fixed -r other/only-pa-includes",
+	})
+	out = append(out, c17Scenario{
+		Pkgs: []c17TreePkg{{"pa", c17Prog{a("VA", "=", "2")}, nil, "../pb/inc.mk"},
+			{"pb", c17Prog{a("VB", "=", "3")}, nil, ""}},
+		FragLoc: "other", FragKind: "sibling", Frag: frag, Args: []string{"-r", "CAT"}, Name: "fixed -r other/only-pa-includes (sibling)",
+	}, c17Scenario{
+		Pkgs: []c17TreePkg{{"pa", c17Prog{a("VA", "=", "2")}, nil, "../../CAT/pb/inc.mk"},
+			{"pb", c17Prog{a("VB", "=", "3")}, nil, ""}},
+		FragLoc: "other", FragKind: "canonical", Frag: frag, Args: []string{"CAT/pb"}, Name: "fixed other/only-pa-includes, pb checked",
 	})
 	return out
 }
